@@ -2,12 +2,18 @@
 Model of pybrops/breed/arch/RecurrentSelectionBreedingProgram.py : reset / advance / evolve.
 Core Lean only; executed by the driver with scripted operators.
 
-* A tiny statement language (`Stmt`) and the three method bodies as statement lists (`Schedule`);
+* A small statement language (`Stmt`) and the three method bodies as statement lists (`Schedule`);
   the schedule of the *current* source is regenerated on every run by harness/props/c20.py into
-  PybropsModel/Generated/C20Schedule.lean.
-* Heap semantics: a heap is a list of cells (address = index, allocation = append); the five
-  start containers, the five working containers, `mcfg` and the `misc` dictionary are references
-  into it.  `copy.deepcopy(self.start_X)` allocates a new cell with the same content.
+  PybropsModel/Generated/C20Schedule.lean — statement by statement, in source order, with the
+  keyword arguments as written (nothing is normalised by the translator).
+* Heap semantics: a heap is a list of cells (address = index, allocation = append); a cell holds
+  data and *references to other cells* (an object graph with sharing and cycles); the five start
+  containers, the five working containers and the local variables are references into it.
+  `copy.deepcopy(self.start_X)` is modelled on the graph: every cell that existed when the programme
+  was initialised is copied to fresh addresses with its internal references redirected to the copies
+  (the part reachable from the copied root is an isomorphic, disjoint graph; the rest is garbage).
+  What an operator / the logbook is handed is observed as the depth-bounded unfolding (`view`) of
+  the graph below the reference.
 * Operators, the logbook and the initialisation operator are *arbitrary* functions
   (`Ops`) that thread an internal state `σ`, may mutate the heap, allocate, and return references.
 * The semantics itself records the trace (`Event`): what every operator/logbook call was handed
@@ -15,14 +21,51 @@ Core Lean only; executed by the driver with scripted operators.
   the replicate counter and the contents of the start containers at that moment.
 * `specTrace` is the decidable Spec of property C20 on a trace; the driver evaluates the same
   function on the trace recorded from the real class.
+* `WellFormed` (Model/ProgramSym.lean) is a dataflow analysis of a schedule by symbolic execution.
 -/
 namespace Program
 
 abbrev Ref := Nat
 abbrev Heap (V : Type) := List V
 
-/-- reference-valued program variables: `self._genome … self._gmod`, the locals `mcfg`, `misc` -/
-inductive Reg | genome | geno | pheno | bval | gmod | mcfg | misc
+/-- a heap cell: data and references to other cells -/
+structure Cell (V : Type) where
+  data : V
+  refs : List Ref
+  deriving DecidableEq, Repr
+
+/-- observation of the object graph below a reference: the pre-order list of (depth, data) of its
+    unfolding to a bounded depth (sharing and cycles are unfolded) -/
+abbrev View (V : Type) := List (Nat × V)
+
+def view {V : Type} : Nat → Heap (Cell V) → Ref → View V
+  | 0, h, a =>
+    match h[a]? with
+    | none => []
+    | some c => [(0, c.data)]
+  | k + 1, h, a =>
+    match h[a]? with
+    | none => []
+    | some c => (0, c.data) :: c.refs.flatMap (fun r => (view k h r).map (fun p => (p.1 + 1, p.2)))
+
+def viewO {V : Type} (k : Nat) (h : Heap (Cell V)) (a : Ref) : Option (View V) :=
+  if a < h.length then some (view k h a) else none
+
+/-- `copy.deepcopy` on the graph: the cells below `n0` are appended as copies, references into
+    that prefix redirected to the copies; the copy of cell `a` is cell `a + (old length)` -/
+def shiftCell {V : Type} (n0 len : Nat) (c : Cell V) : Cell V :=
+  { c with refs := c.refs.map (fun r => if r < n0 then r + len else r) }
+
+def deepCopyAll {V : Type} (n0 : Nat) (h : Heap (Cell V)) : Heap (Cell V) :=
+  h ++ (h.take n0).map (shiftCell n0 h.length)
+
+/-- reference-valued program variables: `self._genome … self._gmod` and numbered local variables
+    (`mcfg`, `misc`, … — the translator numbers the locals of each method) -/
+inductive Reg | genome | geno | pheno | bval | gmod | loc (n : Nat)
+  deriving DecidableEq, Repr
+
+/-- keyword names of operator / logbook calls (`miscout = x` and `**x` both bind `misc`) -/
+inductive Kw | genome | geno | pheno | bval | gmod | mcfg | misc
   deriving DecidableEq, Repr
 
 inductive OpK | pselect | mate | evaluate | sselect
@@ -32,17 +75,21 @@ inductive LogK | initialize | pselect | mate | evaluate | sselect
   deriving DecidableEq, Repr
 
 inductive Stmt
-  | skip                                                -- `if verbose: print(...)`
+  | skip                                                -- `if verbose: print(...)`, `pass`
   | initIfNeeded                                        -- `if not self.is_initialized(): self.initialize()`
+  | ngenDefault                                         -- `if ngen is None: ngen = self._t_max`
   | incRep                                              -- `lbook.rep += 1`
   | callReset                                           -- `self.reset()`
   | callAdvance                                         -- `self.advance(ngen = ngen, lbook = lbook, ...)`
-  | copyStart (dst : Reg) (src : Nat)                   -- `self.X = copy.deepcopy(self.start_X)`
-  | resetT                                              -- `self.t_cur = 0`
-  | newMisc                                             -- `misc = {}`
-  | call (op : OpK) (args rets : List Reg)              -- `rets = self._op.m(args, t_cur, t_max, miscout = misc)`
-  | log (k : LogK) (guarded : Bool) (args : List Reg)   -- `lbook.log_k(args, t_cur, t_max, **misc)`; guarded = under `if loginit:`
+  | copyStart (dst : Reg) (src : Nat)                   -- `X = copy.deepcopy(self.start_Y)`
+  | aliasStart (dst : Reg) (src : Nat)                  -- `X = self.start_Y`
+  | shallowCopyStart (dst : Reg) (src : Nat)            -- `X = dict(self.start_Y)` / `copy.copy(self.start_Y)`
+  | setT0                                               -- `self.t_cur = 0`
   | tick                                                -- `self.t_cur += 1`
+  | newDict (dst : Reg)                                 -- `x = {}`
+  | move (dst src : Reg)                                -- `x = y`
+  | call (op : OpK) (args : List (Kw × Reg)) (rets : List Reg)   -- `rets = self._op.m(kw = x, …, t_cur, t_max)`
+  | log (k : LogK) (guarded : Bool) (args : List (Kw × Reg))     -- `lbook.log_k(kw = x, …, t_cur, t_max, **m)`; guarded = under `if loginit:`
   deriving DecidableEq, Repr
 
 /-- the three methods: `evolve` = pre; `for r in range(nrep)`: rep; post —
@@ -60,27 +107,60 @@ structure Schedule where
 open Reg in
 def five : List Reg := [genome, geno, pheno, bval, gmod]
 
-/-- the schedule the property describes (with `skip`s removed) -/
+def fiveKw : List Kw := [.genome, .geno, .pheno, .bval, .gmod]
+
+/-- keyword parameters of the operator methods, in the order of their signatures -/
+def opKws : OpK → List Kw
+  | .mate => .mcfg :: fiveKw ++ [.misc]
+  | _ => fiveKw ++ [.misc]
+
+def logKws : LogK → List Kw
+  | .pselect => .mcfg :: fiveKw ++ [.misc]
+  | .mate => .mcfg :: fiveKw ++ [.misc]
+  | _ => fiveKw ++ [.misc]
+
+/-- number of values an operator must return (`pselect` also returns the mating configuration) -/
+def arity : OpK → Nat
+  | .pselect => 6
+  | _ => 5
+
+def lookupKw (k : Kw) : List (Kw × Reg) → Option Reg
+  | [] => none
+  | (k', r) :: rest => if k' = k then some r else lookupKw k rest
+
+/-- Python keyword binding: the variable passed for each parameter of the callee, in signature
+    order (`none` = a required argument is missing, the call raises) -/
+def bindArgs : List Kw → List (Kw × Reg) → Option (List Reg)
+  | [], _ => some []
+  | k :: ks, args =>
+    match lookupKw k args, bindArgs ks args with
+    | some r, some rs => some (r :: rs)
+    | _, _ => none
+
+/-- the call skeleton the property describes, written with locals 0 (`mcfg`) and 1 (`misc`) -/
 def canonical : Schedule where
   evolvePre := [.initIfNeeded]
-  evolveRep := [.incRep, .callReset, .newMisc,
-                .call .evaluate (five ++ [.misc]) five,
-                .log .initialize true (five ++ [.misc]),
+  evolveRep := [.incRep, .callReset, .newDict (.loc 1),
+                .call .evaluate (kw5 ++ [(.misc, .loc 1)]) five,
+                .log .initialize true (kw5 ++ [(.misc, .loc 1)]),
                 .tick, .callAdvance]
   evolvePost := []
   reset := [.copyStart .genome 0, .copyStart .geno 1, .copyStart .pheno 2, .copyStart .bval 3,
-            .copyStart .gmod 4, .resetT]
+            .copyStart .gmod 4, .setT0]
   advancePre := []
-  advanceGen := [.newMisc, .call .pselect (five ++ [.misc]) (.mcfg :: five),
-                 .log .pselect false (.mcfg :: five ++ [.misc]),
-                 .newMisc, .call .mate (.mcfg :: five ++ [.misc]) five,
-                 .log .mate false (.mcfg :: five ++ [.misc]),
-                 .newMisc, .call .evaluate (five ++ [.misc]) five,
-                 .log .evaluate false (five ++ [.misc]),
-                 .newMisc, .call .sselect (five ++ [.misc]) five,
-                 .log .sselect false (five ++ [.misc]),
+  advanceGen := [.newDict (.loc 1), .call .pselect (kw5 ++ [(.misc, .loc 1)]) (.loc 0 :: five),
+                 .log .pselect false ((.mcfg, .loc 0) :: kw5 ++ [(.misc, .loc 1)]),
+                 .newDict (.loc 1), .call .mate ((.mcfg, .loc 0) :: kw5 ++ [(.misc, .loc 1)]) five,
+                 .log .mate false ((.mcfg, .loc 0) :: kw5 ++ [(.misc, .loc 1)]),
+                 .newDict (.loc 1), .call .evaluate (kw5 ++ [(.misc, .loc 1)]) five,
+                 .log .evaluate false (kw5 ++ [(.misc, .loc 1)]),
+                 .newDict (.loc 1), .call .sselect (kw5 ++ [(.misc, .loc 1)]) five,
+                 .log .sselect false (kw5 ++ [(.misc, .loc 1)]),
                  .tick]
   advancePost := []
+where
+  kw5 : List (Kw × Reg) :=
+    [(.genome, .genome), (.geno, .geno), (.pheno, .pheno), (.bval, .bval), (.gmod, .gmod)]
 
 def Stmt.isSkip : Stmt → Bool
   | .skip => true
@@ -88,26 +168,14 @@ def Stmt.isSkip : Stmt → Bool
 
 def strip (l : List Stmt) : List Stmt := l.filter (fun s => !s.isSkip)
 
-def Schedule.strip (s : Schedule) : Schedule where
-  evolvePre := Program.strip s.evolvePre
-  evolveRep := Program.strip s.evolveRep
-  evolvePost := Program.strip s.evolvePost
-  reset := Program.strip s.reset
-  advancePre := Program.strip s.advancePre
-  advanceGen := Program.strip s.advanceGen
-  advancePost := Program.strip s.advancePost
-
-/-- a schedule is well formed when, up to no-op statements, it is the canonical call skeleton -/
-def WellFormed (s : Schedule) : Bool := decide (s.strip = canonical)
-
 /-! ### operators, state, trace -/
 
 /-- operators / logbook / initialisation operator: arbitrary functions threading a state `σ`.
     `op k σ heap args t_cur t_max = (σ', heap', returned references)` -/
 structure Ops (σ V : Type) where
-  op : OpK → σ → Heap V → List Ref → Nat → Nat → σ × Heap V × List Ref
-  log : LogK → σ → Heap V → List Ref → Nat → Nat → Int → σ × Heap V
-  init : σ → Heap V → σ × Heap V × List Ref
+  op : OpK → σ → Heap (Cell V) → List Ref → Nat → Nat → σ × Heap (Cell V) × List Ref
+  log : LogK → σ → Heap (Cell V) → List Ref → Nat → Nat → Int → σ × Heap (Cell V)
+  init : σ → Heap (Cell V) → σ × Heap (Cell V) × List Ref
 
 inductive EvKind | init | op (k : OpK) | log (k : LogK)
   deriving DecidableEq, Repr
@@ -124,21 +192,26 @@ structure Event (V : Type) where
   startVals : List (Option V)     -- contents of the five start containers at entry
   deriving Repr
 
+/-- arguments of one `evolve(nrep, ngen, lbook, loginit)` call plus the constants of the programme;
+    `ngen = none` is the documented "use `t_max`" -/
 structure Cfg (V : Type) where
   nrep : Nat
-  ngen : Nat
+  ngen : Option Nat
   tmax : Nat
   loginit : Bool
-  emptyV : V                      -- content of a fresh `{}`
+  emptyV : V                      -- data of a fresh `{}`
+  depth : Nat                     -- how deep the recorded observations unfold the object graph
 
 structure State (σ V : Type) where
-  heap : Heap V
+  heap : Heap (Cell V)
+  n0 : Nat                        -- heap size when the programme was initialised (all start containers live below)
   regs : Reg → Option Ref
   start : List (Option Ref)       -- start_genome, start_geno, start_pheno, start_bval, start_gmod
   t : Nat
   rep : Int
+  ngen : Option Nat               -- the parameter `ngen` of the running evolve / advance call
   ost : σ
-  trace : List (Event V)
+  trace : List (Event (View V))
   bad : Bool                      -- the Python code would have raised
 
 def setReg (regs : Reg → Option Ref) (r : Reg) (v : Option Ref) : Reg → Option Ref :=
@@ -156,10 +229,10 @@ def resolve (regs : Reg → Option Ref) : List Reg → Option (List Ref)
     | some a, some as => some (a :: as)
     | _, _ => none
 
-def vals {V} (h : Heap V) (rs : List Ref) : List (Option V) := rs.map (fun a => h[a]?)
+def vals {V} (k : Nat) (h : Heap (Cell V)) (rs : List Ref) : List (Option (View V)) := rs.map (viewO k h)
 
-def startVals {V} (h : Heap V) (start : List (Option Ref)) : List (Option V) :=
-  start.map (fun o => o.bind (fun a => h[a]?))
+def startVals {V} (k : Nat) (h : Heap (Cell V)) (start : List (Option Ref)) : List (Option (View V)) :=
+  start.map (fun o => o.bind (viewO k h))
 
 section exec
 variable {σ V : Type}
@@ -175,49 +248,65 @@ def execS (ops : Ops σ V) (cfg : Cfg V) (s : Stmt) (st : State σ V) : State σ
   | .callAdvance => st.fail
   | .incRep => { st with rep := st.rep + 1 }
   | .tick => { st with t := st.t + 1 }
-  | .resetT => { st with t := 0 }
-  | .newMisc => { st with heap := st.heap ++ [cfg.emptyV],
-                          regs := setReg st.regs .misc (some st.heap.length) }
+  | .setT0 => { st with t := 0 }
+  | .ngenDefault => { st with ngen := some (st.ngen.getD cfg.tmax) }
+  | .newDict dst => { st with heap := st.heap ++ [⟨cfg.emptyV, []⟩],
+                              regs := setReg st.regs dst (some st.heap.length) }
+  | .move dst src =>
+    match st.regs src with
+    | some a => { st with regs := setReg st.regs dst (some a) }
+    | none => st.fail
   | .copyStart dst src =>
     match st.start[src]? with
     | some (some a) =>
-      match st.heap[a]? with
-      | some v => { st with heap := st.heap ++ [v], regs := setReg st.regs dst (some st.heap.length) }
-      | none => st.fail
+      if a < st.n0 ∧ st.n0 ≤ st.heap.length then
+        { st with heap := deepCopyAll st.n0 st.heap, regs := setReg st.regs dst (some (a + st.heap.length)) }
+      else st.fail
     | _ => st.fail                       -- deepcopy(None) = None is rejected by the setter
+  | .shallowCopyStart dst src =>
+    match st.start[src]? with
+    | some (some a) =>
+      match st.heap[a]? with
+      | some c => { st with heap := st.heap ++ [c], regs := setReg st.regs dst (some st.heap.length) }
+      | none => st.fail
+    | _ => st.fail
+  | .aliasStart dst src =>
+    match st.start[src]? with
+    | some (some a) => { st with regs := setReg st.regs dst (some a) }
+    | _ => st.fail
   | .initIfNeeded =>
     if st.start.all Option.isSome then st else
     let r := ops.init st.ost st.heap
     if r.2.2.length = 5 then
-      { st with ost := r.1, heap := r.2.1, start := r.2.2.map some,
+      { st with ost := r.1, heap := r.2.1, n0 := r.2.1.length, start := r.2.2.map some,
                 trace := st.trace ++ [{ kind := .init, t := st.t, tmax := cfg.tmax, rep := st.rep,
                                         args := [], argVals := [], rets := r.2.2,
-                                        retVals := vals r.2.1 r.2.2,
-                                        startVals := startVals st.heap st.start }] }
+                                        retVals := vals cfg.depth r.2.1 r.2.2,
+                                        startVals := startVals cfg.depth st.heap st.start }] }
     else st.fail
   | .call k args rets =>
-    match resolve st.regs args with
+    match (bindArgs (opKws k) args).bind (resolve st.regs) with
     | none => st.fail
     | some as =>
       let r := ops.op k st.ost st.heap as st.t cfg.tmax
       if r.2.2.length = rets.length then
         { st with ost := r.1, heap := r.2.1, regs := assign st.regs rets r.2.2,
                   trace := st.trace ++ [{ kind := .op k, t := st.t, tmax := cfg.tmax, rep := st.rep,
-                                          args := as, argVals := vals st.heap as, rets := r.2.2,
-                                          retVals := vals r.2.1 r.2.2,
-                                          startVals := startVals st.heap st.start }] }
+                                          args := as, argVals := vals cfg.depth st.heap as, rets := r.2.2,
+                                          retVals := vals cfg.depth r.2.1 r.2.2,
+                                          startVals := startVals cfg.depth st.heap st.start }] }
       else st.fail
   | .log k guarded args =>
     if guarded && !cfg.loginit then st else
-    match resolve st.regs args with
+    match (bindArgs (logKws k) args).bind (resolve st.regs) with
     | none => st.fail
     | some as =>
       let r := ops.log k st.ost st.heap as st.t cfg.tmax st.rep
       { st with ost := r.1, heap := r.2,
                 trace := st.trace ++ [{ kind := .log k, t := st.t, tmax := cfg.tmax, rep := st.rep,
-                                        args := as, argVals := vals st.heap as, rets := [],
+                                        args := as, argVals := vals cfg.depth st.heap as, rets := [],
                                         retVals := [],
-                                        startVals := startVals st.heap st.start }] }
+                                        startVals := startVals cfg.depth st.heap st.start }] }
 
 def execList (f : Stmt → State σ V → State σ V) (l : List Stmt) (st : State σ V) : State σ V :=
   l.foldl (fun s x => f x s) st
@@ -232,10 +321,15 @@ def execR (ops : Ops σ V) (cfg : Cfg V) (sc : Schedule) (s : Stmt) (st : State 
   | .callReset => if st.bad then st else execList (execS ops cfg) sc.reset st
   | s => execS ops cfg s st
 
+/-- `advance(ngen, lbook)`; the generation count is the variable `ngen` of the state
+    (`range(None)` raises) -/
 def advance (ops : Ops σ V) (cfg : Cfg V) (sc : Schedule) (st : State σ V) : State σ V :=
   let st1 := execList (execR ops cfg sc) sc.advancePre st
-  let st2 := iter (execList (execR ops cfg sc) sc.advanceGen) cfg.ngen st1
-  execList (execR ops cfg sc) sc.advancePost st2
+  match st1.ngen with
+  | none => st1.fail
+  | some n =>
+    let st2 := iter (execList (execR ops cfg sc) sc.advanceGen) n st1
+    execList (execR ops cfg sc) sc.advancePost st2
 
 /-- statements of `evolve` (may call `reset` and `advance`) -/
 def execE (ops : Ops σ V) (cfg : Cfg V) (sc : Schedule) (s : Stmt) (st : State σ V) : State σ V :=
@@ -245,9 +339,18 @@ def execE (ops : Ops σ V) (cfg : Cfg V) (sc : Schedule) (s : Stmt) (st : State 
 
 /-- `evolve(nrep, ngen, lbook, loginit)` -/
 def evolve (ops : Ops σ V) (cfg : Cfg V) (sc : Schedule) (st : State σ V) : State σ V :=
-  let st1 := execList (execE ops cfg sc) sc.evolvePre st
+  let st0 := { st with ngen := cfg.ngen }
+  let st1 := execList (execE ops cfg sc) sc.evolvePre st0
   let st2 := iter (execList (execE ops cfg sc) sc.evolveRep) cfg.nrep st1
   execList (execE ops cfg sc) sc.evolvePost st2
+
+/-- a direct call `self.reset()` -/
+def resetCall (ops : Ops σ V) (cfg : Cfg V) (sc : Schedule) (st : State σ V) : State σ V :=
+  execR ops cfg sc .callReset st
+
+/-- a direct call `self.advance(ngen, lbook)` -/
+def advanceCall (ops : Ops σ V) (cfg : Cfg V) (sc : Schedule) (st : State σ V) : State σ V :=
+  advance ops cfg sc { st with ngen := cfg.ngen }
 
 end exec
 
@@ -349,6 +452,13 @@ def specTrace (R : Item V → Item V → Bool) (nrep ngen : Nat) (loginit : Bool
     (match checkReps R V0 loginit ngen nrep body with
      | some [] => true
      | _ => false)
+
+/-- Spec of a direct `advance(ngen)` call made at clock `t` while holding the containers `cur` -/
+def specAdvance (R : Item V → Item V → Bool) (ngen t : Nat) (V0 : List (Option V)) (cur : List (Item V))
+    (trace : List (Event V)) : Bool :=
+  match checkGens R V0 ngen t cur trace with
+  | some [] => true
+  | _ => false
 
 /-- replicate counter: the events of replicate `r` (0-based) carry `rep0 + r + 1` -/
 def repsOf (rep0 : Int) (loginit : Bool) (ngen : Nat) (nrep : Nat) : List Int :=
